@@ -27,6 +27,7 @@ RULE = ('histories = breadth-first closure over call sequences from the alphabet
         'history that reached an abstract state different from the initial one; distinct = '
         '(model, call sequence).')
 RULE += ('  Round 3: a Conv1d MPS model (mps-layer-1d).')
+RULE += ('  Round 4b/5: model pit-dense-head (output = nest of concats); buffers of Frozen* maskers must never require or receive a gradient.')
 ASSUMPTIONS = [
     'frozen components are identified independently: layers tied to a network input / output by '
     'the program-level width analysis (features) and strided convolutions (receptive field, '
@@ -268,6 +269,20 @@ def check_after(ctx, kind, nas, rt, action, seq, did_backward, before_q):
                 parameter=names.get(id(p)), requires_grad=bool(p.requires_grad), expected=want,
                 frozen=frozen))
             break
+    # (I3b) masks the method froze by construction are stored as buffers of Frozen* maskers: they are
+    # no parameters, so only a look at the tensors themselves tells whether they became trainable
+    # or received a gradient
+    if kind.startswith('pit'):
+        for mname, mod in nas.named_modules():
+            if not type(mod).__name__.startswith('PITFrozen'):
+                continue
+            for bname, buf in mod.named_buffers(recurse=False):
+                if buf.requires_grad or (buf.grad is not None and bool((buf.grad != 0).any())):
+                    ctx.violation('requires-grad', dict(
+                        d, sig='frozen-buffer-differentiable:' + kind,
+                        parameter=mname + '.' + bname, requires_grad=bool(buf.requires_grad),
+                        has_grad=buf.grad is not None))
+                    break
     # (I4) gradients
     if did_backward:
         ctx.mon('c11.frozen_grad')
